@@ -74,7 +74,7 @@ SRC = [0.0, -2.0, 1.5]
 XI_THOROUGH = [2.5, -3.0]
 TAU_THOROUGH = [70.25]
 
-GRID_LISTS = ["single", "at_tau", "empty", "zero", "unsorted", "repeated", "zero_mixed", "sorted", "far"]
+GRID_LISTS = ["single", "at_tau", "empty", "zero", "unsorted", "repeated", "zero_mixed", "sorted", "far", "precise"]
 GRID_LISTS_THOROUGH = GRID_LISTS + ["long"]
 
 
@@ -99,6 +99,8 @@ def grid_ages(name, tau):
         return [tau + 1000.0, tau - 1000.0, tau + 30.0, tau - 30.0]
     if name == "long":
         return [tau - 12.0 + k for k in range(25)]
+    if name == "precise":  # more than 6 decimals, not exactly representable in single precision
+        return [tau + 1.0 / 3.0, tau - 2.0000001, tau + 0.123456789]
     raise ValueError(name)
 
 
@@ -121,7 +123,8 @@ CATALOGUE = {
 CATALOGUE_ORDER = ["p2", "p10", "P1"]
 LAYOUT_LISTS = {
     "single": [70.0],
-    "unsorted": [75.5, 62.0, 70.0],
+    # not sorted, and with more decimals than the 6 the data readers keep (days / 365.25, thirds): a requested age is an age
+    "unsorted": [75.5000001, 62.123456789, 200.0 / 3.0],
     "repeated": [70.0, 66.0, 70.0],
     "ints": [71, 0, 68],
     "empty": [],
